@@ -65,6 +65,8 @@ class XYContainer(IndexedContainer):
         return self._data[axis_id]
 
     def _calculate_total_error(self):
+        # bring lazily computed values (parametric models) and the error references up to date first
+        _x, _y = self.x, self.y
         _sz = self.size
         _tmp_cov_mat_x = np.zeros((_sz, _sz))
         _tmp_cov_mat_y = np.zeros((_sz, _sz))
@@ -77,8 +79,8 @@ class XYContainer(IndexedContainer):
             elif _err_dict["axis"] == 1:
                 _tmp_cov_mat_y += _err_dict["err"].cov_mat
 
-        _total_err_x = MatrixGaussianError(_tmp_cov_mat_x, "cov", relative=False, reference=self.x)
-        _total_err_y = MatrixGaussianError(_tmp_cov_mat_y, "cov", relative=False, reference=self.y)
+        _total_err_x = MatrixGaussianError(_tmp_cov_mat_x, "cov", relative=False, reference=_x)
+        _total_err_y = MatrixGaussianError(_tmp_cov_mat_y, "cov", relative=False, reference=_y)
         self._total_error = [_total_err_x, _total_err_y]
 
     def _clear_total_error_cache(self):
